@@ -2,6 +2,7 @@ import VerifModel.Driver.Cmp
 import VerifModel.Driver.Cont
 import VerifModel.Driver.Det
 import VerifModel.Driver.Data
+import VerifModel.Driver.Clean
 /-
   verifdrv — line-protocol driver: one operation per input line, one canonical
   reply line.  `ERR bad-op` for anything a handler does not recognise.
@@ -9,7 +10,7 @@ import VerifModel.Driver.Data
 open VerifModel
 
 def handlers : List (List String → Option String) :=
-  [Driver.Cmp.handle, Driver.Cont.handle, Driver.Det.handle, Driver.Data.handle]
+  [Driver.Cmp.handle, Driver.Cont.handle, Driver.Det.handle, Driver.Data.handle, Driver.Clean.handle]
 
 def step (line : String) : String :=
   let args := (line.trimAscii.toString.splitOn " ").filter (· ≠ "")
